@@ -51,10 +51,94 @@ func (Area) Exec(input string) string {
 		return fmt.Sprintf("q=%s md=%s q2=%s mod=%d", fake.ShowMD(q), fake.ShowMD(md), fake.ShowMD(q2), mod)
 	case "disp":
 		return execDisp(f[1], string(common.MustUnHex(f[2])), fake.ParsePairs(f[3]))
+	case "tok": // tok x<header name> x<token> l:<header lines>  => 0|1   (the exported headerHasToken)
+		h := http.Header{}
+		name := string(common.MustUnHex(f[1]))
+		for _, v := range fake.ParseList(f[3]) {
+			h.Add(name, v)
+		}
+		return b01(grpcbridge.VerifHeaderHasToken(h, name, string(common.MustUnHex(f[2]))))
+	case "ctype": // ctype x<Content-Type value> => 0|1   (the exported isGRPCWebContentType)
+		return b01(grpcbridge.VerifIsGRPCWebContentType(string(common.MustUnHex(f[1]))))
 	case "wsmd":
 		return execWSMD(f[1], string(common.MustUnHex(f[2])), fake.ParsePairs(f[3]))
 	}
 	return "BADOP"
+}
+
+func b01(b bool) string {
+	if b {
+		return "1"
+	}
+	return "0"
+}
+
+// ---- case-folding look-alikes.  Unicode simple case folding maps U+017F (ſ, long s) onto s and U+212A (K, Kelvin sign)
+// onto k; U+0130 (İ) / U+0131 (ı) are the dotted/dotless i; fullwidth letters look like ASCII ones.  None of them NAMES an
+// ASCII token: RFC 7230 tokens are ASCII and compare ASCII-case-insensitively only.
+var lookalikes = map[byte][]string{
+	's': {"\u017f"}, 'S': {"\u017f"},
+	'k': {"\u212a"}, 'K': {"\u212a"},
+	'i': {"\u0130", "\u0131"}, 'I': {"\u0130", "\u0131"},
+}
+
+// mangle substitutes, at one or more positions of an (ASCII) value, a look-alike, a fullwidth letter or a raw high byte.
+func mangle(r *rand.Rand, v string) string {
+	if v == "" {
+		return "\u017f"
+	}
+	b := []byte(v)
+	var sb strings.Builder
+	// positions that have a folding look-alike are preferred: they are the ones Unicode folding would accept
+	var special []int
+	for i, c := range b {
+		if _, ok := lookalikes[c]; ok {
+			special = append(special, i)
+		}
+	}
+	pick := map[int]bool{}
+	n := 1 + r.Intn(2)
+	for ; n > 0; n-- {
+		if len(special) > 0 && r.Intn(4) != 0 {
+			pick[special[r.Intn(len(special))]] = true
+		} else {
+			pick[r.Intn(len(b))] = true
+		}
+	}
+	for i, c := range b {
+		if !pick[i] {
+			sb.WriteByte(c)
+			continue
+		}
+		la := lookalikes[c]
+		switch {
+		case len(la) > 0 && r.Intn(5) != 0:
+			sb.WriteString(la[r.Intn(len(la))])
+		case (c >= 'a' && c <= 'z' || c >= 'A' && c <= 'Z') && r.Intn(2) == 0:
+			lc := c | 0x20
+			sb.WriteString(string(rune(0xff41 + int(lc-'a')))) // fullwidth small letter
+		default:
+			sb.WriteByte(0x80 + byte(r.Intn(0x80))) // arbitrary high byte (invalid UTF-8 as well)
+		}
+	}
+	return sb.String()
+}
+
+// every value in which each s/S, k/K of a keyword is replaced by its look-alike, singly and all at once
+func lookalikeVariants(v string) []string {
+	out := []string{}
+	all := []byte{}
+	for i := 0; i < len(v); i++ {
+		if la, ok := lookalikes[v[i]]; ok {
+			for _, l := range la {
+				out = append(out, v[:i]+l+v[i+1:])
+			}
+			all = append(all, []byte(la[0])...)
+		} else {
+			all = append(all, v[i])
+		}
+	}
+	return append(out, string(all))
 }
 
 // capture is a grpcadapter.Forwarder that records the incoming metadata it is handed — read the way
@@ -238,6 +322,12 @@ func genHandshake(r *rand.Rand) [][2]string {
 	if r.Intn(4) == 0 {
 		lines = append(lines, [2]string{"Content-Type", genContentType(r)})
 	}
+	if r.Intn(4) == 0 { // an otherwise complete handshake in which ONE token is a look-alike of the keyword
+		i := r.Intn(len(lines))
+		if !strings.HasPrefix(lines[i][0], "Sec-WebSocket-V") && !strings.HasPrefix(lines[i][0], "Sec-WebSocket-K") {
+			lines[i][1] = mangle(r, lines[i][1])
+		}
+	}
 	return lines
 }
 
@@ -278,6 +368,9 @@ var notGrpcWeb = []string{
 }
 
 func genContentType(r *rand.Rand) string {
+	if r.Intn(12) == 0 {
+		return mangle(r, common.Pick(r, grpcWebTypes)) + common.Pick(r, grpcWebSuffixes) + common.Pick(r, paramTails)
+	}
 	switch r.Intn(10) {
 	case 0, 1:
 		return common.Pick(r, ctVals)
@@ -311,6 +404,8 @@ func genLines(r *rand.Rand) [][2]string {
 				v = strings.ToUpper(v)
 			case 2:
 				v = ""
+			case 3:
+				v = mangle(r, v) // a look-alike / fullwidth letter / high byte inside a token
 			}
 			lines = append(lines, [2]string{common.Pick(r, names[name]), v})
 		}
@@ -435,6 +530,63 @@ func (Area) Gen(r *rand.Rand, tier string, emit func(string)) {
 	}
 	for i := 0; i < nCT; i++ {
 		disp("POST", "", [][2]string{{common.Pick(r, names["Content-Type"]), genContentType(r)}})
+	}
+	// ---- case-folding look-alikes, end to end: a complete handshake in which exactly one keyword is replaced by each of
+	// its look-alike variants (ſ for s, K for k, singly and all at once), with and without the grpc-websockets offer
+	for _, v := range lookalikeVariants("websocket") {
+		disp("GET", "", append([][2]string{{"Connection", "Upgrade"}, {"Upgrade", v}}, hs[2:]...))
+		disp("GET", "", append([][2]string{{"Connection", "Upgrade"}, {"Upgrade", "h2c, " + v}, {"Sec-WebSocket-Protocol", "grpc-websockets"}}, hs[2:]...))
+	}
+	for _, v := range lookalikeVariants("WebSocket") {
+		disp("GET", "", append([][2]string{{"Connection", "keep-alive, Upgrade"}, {"Upgrade", v}}, hs[2:]...))
+	}
+	for _, v := range lookalikeVariants("grpc-websockets") {
+		disp("GET", "", append(append([][2]string{}, hs...), [2]string{"Sec-WebSocket-Protocol", v}))
+		disp("GET", "", append(append([][2]string{}, hs...), [2]string{"Sec-WebSocket-Protocol", "foo, " + v}))
+	}
+	for _, v := range []string{"upgrade\u017f", "\uff55pgrade", "upgr\xe4de", "Upgrade\xff"} {
+		disp("GET", "", append([][2]string{{"Connection", v}, {"Upgrade", "websocket"}}, hs[2:]...))
+	}
+	for _, v := range []string{"appl\u0131cation/grpc-web", "appl\u0130cation/grpc-web+proto", "application/grpc-\uff57eb", "application/grpc-we\xe2", "\uff41pplication/grpc-web"} {
+		disp("POST", "", [][2]string{{"Content-Type", v}})
+	}
+	// ---- the exported predicates themselves: every keyword x every look-alike variant, then mangled random values
+	tok := func(name, token string, lines []string) {
+		emit("tok " + common.HexS(name) + " " + common.HexS(token) + " " + fake.ShowList(lines))
+	}
+	ctype := func(v string) { emit("ctype " + common.HexS(v)) }
+	kws := [][2]string{{"Connection", "upgrade"}, {"Upgrade", "websocket"}, {"Sec-Websocket-Protocol", "grpc-websockets"}}
+	for _, kw := range kws {
+		tok(kw[0], kw[1], []string{kw[1]})
+		tok(kw[0], kw[1], []string{strings.ToUpper(kw[1])})
+		for _, v := range append(lookalikeVariants(kw[1]), lookalikeVariants(strings.ToUpper(kw[1]))...) {
+			tok(kw[0], kw[1], []string{v})
+			tok(kw[0], kw[1], []string{"x, " + v + " ,y"})
+			tok(kw[0], kw[1], []string{"x", v})
+		}
+	}
+	nTok := 3000
+	if tier == "thorough" {
+		nTok = 150000
+	}
+	for i := 0; i < nTok; i++ {
+		kw := common.Pick(r, kws)
+		pool := map[string][]string{"upgrade": connVals, "websocket": upgVals, "grpc-websockets": protoVals}[kw[1]]
+		var lines []string
+		for n := 1 + r.Intn(2); n > 0; n-- {
+			v := common.Pick(r, pool)
+			switch r.Intn(4) {
+			case 0:
+				v = mangle(r, v)
+			case 1:
+				v = strings.ToUpper(v)
+			}
+			lines = append(lines, v)
+		}
+		tok(kw[0], kw[1], lines)
+		if i%3 == 0 {
+			ctype(genContentType(r))
+		}
 	}
 	// ---- wsmd: query metadata AND headers through the real WebSocket bridge, with a capturing forwarder
 	wsmd := func(via, q string, lines [][2]string) {
